@@ -419,4 +419,38 @@ def _identify_double_root_quadratic(inp):
     return e.get("double_root_residual_ok") is True and "sqrt(0)" in str(inp.get("expression", ""))
 
 
+@predicate("quad_half_infinite_gaussian_tail_early_stop")
+def _quad_gauss_tail(inp):
+    """C26: tanh-sinh quad of a Gaussian c*exp(-b x^2) split at a POSITIVE finite point a, i.e. containing the tail integral over
+    [a, inf): for about 1% of (a, b, prec) the error extrapolation of quad accepts a level too early and the tail is off by
+    2^11 .. 2^25 ulp (its own error estimate is smaller than the actual error).  Matches only when the unsplit variant over the
+    whole line agrees with every split variant to 2^(30-p) relative (a dropped sub-interval or a wrong transformation is far above
+    that) and every split point is positive."""
+    from fractions import Fraction
+    if inp.get("kind") != "quad" or inp.get("method") not in ("quad", "quadts") or inp.get("rule") not in (None, "tanh-sinh"):
+        return False
+    fams = [f.get("fam") for f in inp.get("factors") or []]
+    if fams not in (["gaussFull"], ["gaussHalf"]):
+        return False
+    vs = [v.get("re") for v in (inp.get("result") or {}).get("vs") or []]
+    variants = inp.get("variants") or []
+    if len(vs) != len(variants) or not vs or any(v is None for v in vs):
+        return False
+    vals = [Fraction(int(m)) * Fraction(2) ** int(e) for m, e in vs]
+    ref = abs(vals[0])
+    if ref == 0:
+        return False
+    p = int(inp.get("prec", 53))
+    split_ok = False
+    for var, v in zip(variants, vals):
+        pts = [q for q in var[0] if q not in ("inf", "-inf")]
+        if abs(abs(v) - ref) > ref * Fraction(2) ** (30 - p):
+            return False
+        if abs(abs(v) - ref) > ref * Fraction(2) ** (9 - p):
+            if not pts or any(Fraction(q) <= 0 for q in pts):
+                return False
+            split_ok = True
+    return split_ok
+
+
 import special_findings  # noqa: E402  (C18/C19/C22 predicates; must stay at the end of this file)
